@@ -8,7 +8,9 @@ theorem invA_step_1 {w s l s'} (hi : InvA w s) (hs : Step s l s') (hg : grpOf l 
   | fRefLoad c rest d h hk hf => invA_auto
   | fForward c rest d n h hk hn => invA_auto
   | fForwardPost c rest d h hk => invA_auto
-  | fRetire c rest d n h hk => invA_auto
+  | fEnter c rest d h hk hf => invA_auto
+  | rRefLoad c h => invA_auto
+  | rRetire c n h => invA_auto
   | jInvoke c h => invA_auto
   | jDec c h => invA_auto
   | _ => simp [grpOf] at hg
